@@ -22,6 +22,7 @@ structure RAnswer where
   id : String
   accepted : Bool        -- the implementation's answer
   reason : String := ""
+  bind : Bool := false   -- a key replayed as an ask earlier is now reported as bound (transition branch)
 
 def hasSub (s sub : String) : Bool := (s.splitOn sub).length > 1
 
@@ -51,10 +52,10 @@ def jRAnswer (j : Json) : Except String RAnswer := do
     let rej := msgs.find? (fun m => s m "t" == "app-rejected" && s m "app" == id)
     pure { item := .app a, kind := kind, id := id, accepted := msgs.any (fun m => s m "t" == "app-accepted" && s m "app" == id),
            reason := (rej.map (fun m => s m "reason")).getD "" }
-  | "alloc" | "ask" =>
+  | "alloc" | "ask" | "bind" =>
     let x ← jRAlloc j
-    pure { item := if kind == "alloc" then .alloc x else .ask { x with node := "" }, kind := kind, id := x.key,
-           accepted := !(msgs.any (fun m => s m "t" == "alloc-rejected" && s m "key" == x.key)) }
+    pure { item := if kind == "ask" then .ask { x with node := "" } else .alloc x, kind := kind, id := x.key,
+           accepted := !(msgs.any (fun m => s m "t" == "alloc-rejected" && s m "key" == x.key)), bind := kind == "bind" }
   | "foreign" =>
     let key ← (fld j "key") >>= jStr
     pure { item := .foreign key (sD "node") (← (fld j "res") >>= jRes), kind := kind, id := key,
@@ -103,7 +104,9 @@ def modelReplay (init : Core) (ans : List RAnswer) : Core × Option String :=
     match acc.2 with
     | some _ => acc
     | none =>
-      let (s', ok) := acc.1.rstep r.item
+      let (s', ok) := match r.bind, r.item with
+        | true, .alloc x => acc.1.recPlaced x
+        | _, it => acc.1.rstep it
       if ok == r.accepted then (s', none)
       else (acc.1, some s!"diff recover.accept {r.kind} {r.id} model={ok} impl={r.accepted} {r.reason}")) (init, none)
 
@@ -122,7 +125,9 @@ def recoverReset (j : Json) : Except String (RecoverSt × String) := do
   let init := Core.fresh tree
   let (m, acceptDiff) := modelReplay init ans
   let diff : Option String := acceptDiff.orElse fun _ => (ledgerDiff m b).map (fun e => "diff recover.replay " ++ e)
-  let accepted := (ans.filter (·.accepted)).map (·.item)
+  -- what the core holds after the replay: a key replayed as an ask and reported as bound later counts as the allocation
+  let boundLater := (ans.filter (fun r => r.accepted && r.bind)).map (·.id)
+  let accepted := ((ans.filter (fun r => r.accepted && !(r.kind == "ask" && boundLater.contains r.id)))).map (·.item)
   let tag (p : String) (o : Option String) : List String := match o with | some e => [p ++ e] | none => []
   -- P2: the books of the restarted core are balanced
   let p2 := (conservedAll b).map (fun e => "C12.B-" ++ e) ++ tag "C12.B-" (nodeLedger b) ++ tag "C12.B-" (usageOK b)
